@@ -191,12 +191,16 @@ impl Language for Go {
     fn write_type_alias(&mut self, w: &mut dyn Write, ty: &RustTypeAlias) -> std::io::Result<()> {
         write_comments(w, 0, &ty.comments)?;
 
+        // the target may name other generated types: they are defined with their
+        // acronyms upper-cased, so they have to be spelled that way here too
+        let target = self
+            .format_type(&ty.r#type, &[])
+            .map_err(|e| std::io::Error::new(std::io::ErrorKind::Other, e))?;
         writeln!(
             w,
             "type {} {}\n",
             self.acronyms_to_uppercase(&ty.id.original),
-            self.format_type(&ty.r#type, &[])
-                .map_err(|e| std::io::Error::new(std::io::ErrorKind::Other, e))?
+            self.acronyms_to_uppercase(&target)
         )?;
 
         Ok(())
@@ -208,6 +212,7 @@ impl Language for Go {
                 let const_type = self
                     .format_type(&c.r#type, &[])
                     .map_err(|e| std::io::Error::new(std::io::ErrorKind::Other, e))?;
+                let const_type = self.acronyms_to_uppercase(&const_type);
                 writeln!(
                     w,
                     "const {} {} = {}",
